@@ -345,6 +345,79 @@ func (rn *runner) stress(r *rand.Rand, mon *lib.Monitor, rounds int) {
 	}
 }
 
+// overlaps runs the forced-overlap rounds (K4-like tie + serialisability monitor).
+func (rn *runner) overlaps(r *rand.Rand, tie *lib.Tie, mon *lib.Monitor, rounds int) {
+	for i := 0; i < rounds; i++ {
+		ov := genOverlap(r)
+		obs := runOverlap(ov)
+		key := fmt.Sprint(ov.Class, ov.Prefix, ov.Gate, ov.Queued)
+		mon.Eval(key, obs.Forced, map[string]any{"overlap": ov, "gate": obs.GateOut, "outcomes": obs.Outs})
+		mon.Count("class:" + ov.Class)
+		if obs.Forced {
+			mon.Count("forced")
+		} else if obs.Parked {
+			mon.Count("not-forced:queue-not-observed-blocked")
+		} else {
+			mon.Count("not-forced:gate-not-parked")
+		}
+		found, order, lines := checkOverlap(mon, ov, obs)
+		tie.Count("class:" + ov.Class)
+		if rn.drv == nil || lines == nil {
+			continue
+		}
+		ans, err := rn.drv.Batch(lines)
+		if err != nil {
+			tie.Fail(err)
+			return
+		}
+		// the model's outcomes of the serial order (the one that explains the observation if there is
+		// one, else gate first), against the concurrent outcomes arranged in that order
+		all := append([]op{ov.Gate}, ov.Queued...)
+		got := append([]string{obs.GateOut}, obs.Outs...)
+		var modelOuts []string
+		for k := range order {
+			a := ans[len(ans)-len(order)+k]
+			if j := indexByte(a, ' '); j > 0 {
+				a = a[:j]
+			}
+			modelOuts = append(modelOuts, a)
+		}
+		// arrange the concurrent outcomes: identical calls are interchangeable, prefer the outcome the model gives
+		used := make([]bool, len(all))
+		codeOuts := make([]string, len(order))
+		for pass := 0; pass < 2; pass++ {
+			for k, o := range order {
+				if codeOuts[k] != "" {
+					continue
+				}
+				for j := range all {
+					if !used[j] && all[j].line() == o.line() && (pass == 1 || got[j] == modelOuts[k]) {
+						used[j] = true
+						codeOuts[k] = got[j]
+						break
+					}
+				}
+			}
+		}
+		last := ans[len(ans)-1]
+		modelFinal := last
+		if j := indexByte(last, ' '); j > 0 {
+			modelFinal = last[j+1:]
+		}
+		tie.Record(key, obs.Forced, map[string]any{"overlap": ov, "serial_order_found": found},
+			fmt.Sprint(modelOuts, " || ", modelFinal), fmt.Sprint(codeOuts, " || ", obs.Final))
+	}
+}
+
+func indexByte(s string, c byte) int {
+	for i := 0; i < len(s); i++ {
+		if s[i] == c {
+			return i
+		}
+	}
+	return -1
+}
+
 func main() {
 	f := lib.ParseFlags()
 	if f.Replay != "" {
@@ -362,11 +435,16 @@ func main() {
 		"after EVERY step of every sequence on the real model, with plain Go bookkeeping as oracle: I1 at most one normal mode; I2 a delete of the active id fails and keeps the mode; I3 once changed the active id is in modes; clear selects the normal mode / NotFound; a successful switch to a different id stamps start_time = clock now; delete of an absent id = NotFound, or OK with allow-missing; a failed operation changes nothing; no panic other than the two documented contract panics; non-trivial = more than one step")
 	stress := res.Monitor("electric-stress",
 		"2-4 goroutines issue 5-24 random operations each on one shared model (Model API and servers mixed); I1 and I3 evaluated at quiescence, no panic; one evaluation = one round")
+	k4 := res.Tie("electric-forced-overlap", "K4",
+		"forced overlaps: a ChangeActiveMode is parked inside Model.mu through the injected clock, 2-4 calls (same RPC on the same id with and without allow-missing, racing normal flags via create/update/add, deletes of the mode being switched to, mixed) are issued concurrently and observed blocked on the model's locks (goroutine dump), then all are released; the observed per-call outcomes + final state are matched to a serial order and that order is executed by the Lean model (C19_mutex_serialises: every execution equals some serial run); distinct = (class, prefix, gate, queued)")
+	serial := res.Monitor("electric-serialisable",
+		"per forced-overlap round on the real code: every call's outcome and the final state must equal those of SOME serial order of the calls (oracle: the same calls run sequentially on a fresh real model, all permutations tried); a delete with allow-missing must never report NotFound; no panic, no stuck call; one evaluation = one round, non-trivial = the queued calls were observed blocked behind the parked one")
 	if f.Driver != "" {
 		d, err := lib.StartDriver(f.Driver)
 		if err != nil {
 			ex.Fail(err)
 			tie.Fail(err)
+			k4.Fail(err)
 		} else {
 			rn.drv = d
 			defer d.Close()
@@ -374,6 +452,7 @@ func main() {
 	} else {
 		ex.Fail(fmt.Errorf("no driver given"))
 		tie.Fail(fmt.Errorf("no driver given"))
+		k4.Fail(fmt.Errorf("no driver given"))
 	}
 	r := lib.NewRand(f.Seed)
 	// small first: the first violating input per signature is kept as the replay
@@ -400,6 +479,7 @@ func main() {
 	}
 	rn.flush()
 	rn.stress(r, stress, f.N(800, 8000))
+	rn.overlaps(r, k4, serial, f.N(500, 6000))
 	if err := res.Write(f.Out); err != nil {
 		lib.Fatal(err)
 	}
@@ -412,8 +492,28 @@ func replay(f lib.Flags) int {
 	}
 	b, _ := json.Marshal(rp.Input)
 	var in struct {
-		Ops        []op   `json:"ops"`
-		Goroutines [][]op `json:"goroutines"`
+		Ops        []op     `json:"ops"`
+		Goroutines [][]op   `json:"goroutines"`
+		Overlap    *overlap `json:"overlap"`
+	}
+	if err := json.Unmarshal(b, &in); err == nil && in.Overlap != nil {
+		m := lib.NewMonitor("replay", "")
+		fmt.Println("replay of a forced overlap: re-running the round up to 50 times")
+		for i := 0; i < 50 && len(m.Violations) == 0; i++ {
+			obs := runOverlap(*in.Overlap)
+			checkOverlap(m, *in.Overlap, obs)
+			if i == 0 || len(m.Violations) > 0 {
+				fmt.Printf("round %d: forced=%v gate %s -> %s; queued -> %v; final %s\n", i, obs.Forced, in.Overlap.Gate.line(), obs.GateOut, obs.Outs, obs.Final)
+			}
+		}
+		if len(m.Violations) > 0 {
+			for _, v := range m.Violations {
+				fmt.Printf("STILL FAILS %s: %s (expected %s, observed %s)\n", v.Signature, v.What, v.Expected, v.Observed)
+			}
+			return 1
+		}
+		fmt.Println("replay: property holds on this input now")
+		return 0
 	}
 	if err := json.Unmarshal(b, &in); err != nil || (len(in.Ops) == 0 && len(in.Goroutines) == 0) {
 		fmt.Println("replay: no concrete operation sequence in file (", rp.Kind, rp.Broken, ")")
